@@ -12,7 +12,69 @@ import (
 )
 
 type Locker = sync.Locker
-type Pool = sync.Pool
+// Pool is a deterministic stand-in for sync.Pool: Get returns the item put last (or
+// New()), nothing is ever dropped behind the program's back, and ResetPools empties every
+// pool so that one scenario cannot see what an earlier one left behind. Each of these is
+// a behaviour sync.Pool permits.
+type Pool struct {
+	New func() any
+
+	mu    sync.Mutex
+	items []any
+	known bool
+}
+
+var (
+	poolsMu sync.Mutex
+	pools   []*Pool
+)
+
+func (p *Pool) register() {
+	if !p.known {
+		p.known = true
+		poolsMu.Lock()
+		pools = append(pools, p)
+		poolsMu.Unlock()
+	}
+}
+
+func (p *Pool) Get() any {
+	p.mu.Lock()
+	p.register()
+	if n := len(p.items); n > 0 {
+		x := p.items[n-1]
+		p.items = p.items[:n-1]
+		p.mu.Unlock()
+		return x
+	}
+	p.mu.Unlock()
+	if p.New != nil {
+		return p.New()
+	}
+	return nil
+}
+
+func (p *Pool) Put(x any) {
+	if x == nil {
+		return
+	}
+	p.mu.Lock()
+	p.register()
+	p.items = append(p.items, x)
+	p.mu.Unlock()
+}
+
+// ResetPools empties every pool that has been used so far.
+func ResetPools() {
+	poolsMu.Lock()
+	ps := append([]*Pool(nil), pools...)
+	poolsMu.Unlock()
+	for _, p := range ps {
+		p.mu.Lock()
+		p.items = nil
+		p.mu.Unlock()
+	}
+}
 
 type waiter struct{ ch chan struct{} }
 
